@@ -4,7 +4,7 @@
    This is the "depends only on the model passed to the current execution" half of C19, proved for the
    translated source of the eight tree operations. *)
 From Coq Require Import List Bool String ZArith.
-From FM Require Import Base.Result Model.FM Model.PyRt Gen.Src_fm Gen.Src_ops Gen.Src_opobj.
+From FM Require Import Base.Result Model.FM Model.PyRt Gen.Src_fm Gen.Src_ops Gen.Src_atomic Gen.Src_opobj.
 Import ListNotations.
 Local Open Scope list_scope.
 
@@ -78,3 +78,7 @@ Lemma src_obj_estimate_history : forall fuel ms m s,
   rmap py_FMEstimatedConfigurationsNumber_get_result (py_FMEstimatedConfigurationsNumber_execute fuel s m)
   = py_count_configurations fuel m.
 Proof. intros. apply src_obj_estimate. Qed.
+
+Lemma src_obj_atomic_sets : forall fuel s m,
+  rmap py_FMAtomicSets_get_result (py_FMAtomicSets_execute fuel s m) = py_get_atomic_sets fuel m.
+Proof. intros fuel s m. unfold py_FMAtomicSets_execute. cbn. destruct (py_get_atomic_sets fuel m); reflexivity. Qed.
